@@ -91,10 +91,25 @@ where
     rand_distr::StandardUniform: rand_distr::Distribution<T>,
     rand_distr::Exp1: rand_distr::Distribution<T>,
 {
+    run_backend_l::<T, B>(ctx, name, f32b, agg, false)
+}
+
+/// `limited`: two targets, step sizes 1.5 and 0.5, deviation bound <= 1 (used for the mixed-precision combination)
+fn run_backend_l<T, B>(ctx: &Ctx, name: &str, f32b: bool, agg: &Mutex<Agg>, limited: bool)
+where
+    T: Float + burn::tensor::ElementConversion + burn::tensor::Element + rand_distr::uniform::SampleUniform + num_traits::FromPrimitive + std::fmt::Debug + num_traits::FloatConst + Send + Sync,
+    B: AutodiffBackend,
+    rand_distr::StandardNormal: rand::distr::Distribution<T>,
+    rand_distr::StandardUniform: rand_distr::Distribution<T>,
+    rand_distr::Exp1: rand_distr::Distribution<T>,
+{
     let thorough = ctx.tier.thorough();
     let tg = targets::<T>(thorough);
     let mut bases = vec![];
     for (ti, (_, d, tn)) in tg.iter().enumerate() {
+        if limited && ti >= 2 {
+            continue;
+        }
         let sts: Vec<Vec<f64>> = if tn.starts_with("Gamma") || tn.starts_with("SqrtDom") {
             vec![(0..*d).map(|k| 0.6 + 0.5 * k as f64).collect(), (0..*d).map(|k| 0.05 + 0.02 * k as f64).collect()]
         } else if tn.starts_with("NanPocket") {
@@ -106,6 +121,10 @@ where
             // (step size, deviation bound): shallow trees fully, deep trees with fewer deviations
             let plan: Vec<(f64, usize)> = if thorough { vec![(1.5, 3), (0.5, 3), (0.1, 2), (0.03, 1), (0.01, 0), (10.0, 2), (3.0, 2)] } else { vec![(1.5, 2), (0.5, 2), (0.1, 1), (0.02, 0), (10.0, 1), (3.0, 1)] };
             for (eps, bound) in plan {
+                if limited && !(eps == 1.5 || eps == 0.5) {
+                    continue;
+                }
+                let bound = if limited { bound.min(1) } else { bound };
                 if f32b && eps < 0.05 {
                     continue; // deep trees on the f64 backend only
                 }
@@ -115,7 +134,7 @@ where
     }
     // very deep trees (depth 11-13: the trajectory needs thousands of leapfrog steps before it U-turns): default draws
     // and single deviations of the direction pattern only; f64 backend
-    if !f32b {
+    if !f32b && !limited {
         for ti in 0..2 {
             for st in starts(tg[ti].1, false) {
                 bases.push(Base { target: ti, start: st.clone(), eps: 0.0012, bound: 0 });
@@ -264,6 +283,8 @@ pub fn run(ctx: &Ctx) {
     let agg = Mutex::new(Agg::default());
     run_backend::<f64, BF64>(ctx, "f64 / NdArray<f64>", false, &agg);
     run_backend::<f32, BF32>(ctx, "f32 / NdArray<f32>", true, &agg);
+    // scalar type narrower than the backend float: the state must stay the backend's (f64) trajectory point, bit for bit
+    run_backend_l::<f32, BF64>(ctx, "f32 / NdArray<f64>", true, &agg, true);
     let g = agg.lock().unwrap();
     ctx.extra("tree_statistics", json!({"transitions": g.total, "max_depth": g.max_depth, "with_divergent_leaf": g.divergent, "with_early_stopped_subtree": g.early, "moved": g.moved, "stayed": g.stayed, "with_nan_joint": g.nan, "ambiguous_skipped(U-turn product inside rounding margin)": g.ambiguous}));
     ctx.outcome("moved", g.moved);
